@@ -1336,6 +1336,8 @@ func (p *constructPlan) Execute(ctx context.Context) (*table.Table, error) {
 	// The buffered channel has capacity to accommodate twice the amount of triples stored in a single call.
 	tripChan := make(chan *triple.Triple, 2*p.bulkSize)
 	done := make(chan bool)
+	// The first error updating the store, it is only read after the updates are done.
+	var uErr error
 	// On failure stop the updates and wait for the ones in flight before returning.
 	fail := func(err error) (*table.Table, error) {
 		close(tripChan)
@@ -1370,12 +1372,16 @@ func (p *constructPlan) Execute(ctx context.Context) (*table.Table, error) {
 		for elem := range tripChan {
 			ts = append(ts, elem)
 			if len(ts) >= p.bulkSize {
-				update(ctx, ts, p.stm.OutputGraphNames(), p.store, updateFunc)
+				if err := update(ctx, ts, p.stm.OutputGraphNames(), p.store, updateFunc); err != nil && uErr == nil {
+					uErr = err
+				}
 				ts = []*triple.Triple{}
 			}
 		}
 		if len(ts) > 0 {
-			update(ctx, ts, p.stm.OutputGraphNames(), p.store, updateFunc)
+			if err := update(ctx, ts, p.stm.OutputGraphNames(), p.store, updateFunc); err != nil && uErr == nil {
+				uErr = err
+			}
 		}
 		done <- true
 	}()
@@ -1414,6 +1420,9 @@ func (p *constructPlan) Execute(ctx context.Context) (*table.Table, error) {
 	close(tripChan)
 	// Wait until all triples are added to the store.
 	<-done
+	if uErr != nil {
+		return nil, uErr
+	}
 	return tbl, nil
 }
 
